@@ -20,7 +20,7 @@ Ltac known_tac :=
   first
     [ assumption
     | left; reflexivity
-    | right; left; split; [reflexivity | first [left; reflexivity | right; reflexivity]]
+    | right; left; split; reflexivity
     | apply known_r; assumption
     | apply known_cons; assumption
     | apply known_l; cbn [op_ids tg_ids In]; tauto
